@@ -320,13 +320,17 @@ def rule_ring(ctx, rep):
         rep.touch(w)
         dec = pat.rmws(w, glob="defer_thread_futex")
         pat.require(dec, "%s: wait_defer does not decrement the futex" % fl)
-        tests = pat.loads(w, glob="defer_thread_stop") + pat.calls(w, "rcu_defer_num_callbacks")
+        # the queue re-check: the helper rcu_defer_num_callbacks(), or - when it is inlined into wait_defer - the loads of the
+        # registered queues' head words it performs
+        nc = m.fn("rcu_defer_num_callbacks")
+        qtests = pat.calls_opt(w, "rcu_defer_num_callbacks") if nc is not None else []
+        if not qtests:
+            nc = w
+            qtests = [l for l in w.all_insts() if l.op == "load" and pat.last_field(l.d["ap"]) == "defer_queue.head"]
+        tests = pat.loads(w, glob="defer_thread_stop") + qtests
         pat.require(len(tests) >= 2, "%s: wait_defer tests" % fl)
         rep.must_pass("C13.sleep", fl + ".dec≺FULL≺tests", w, dec, tests, lambda i: mm.is_full(i) and i not in dec, what="FULL barrier between announcing sleep (futex dec) and testing stop / queue heads (store→load)")
         # the sleep re-check must read the word the producer publishes (queue head), not a private snapshot
-        nc = m.fn("rcu_defer_num_callbacks")
-        if nc is None:
-            raise Broken("%s: rcu_defer_num_callbacks vanished" % fl)
         rep.touch(nc)
         pub = set(pat.last_field(s.d["ap"]) for s in head_st)
         rd = set(pat.last_field(l.d["ap"]) for l in nc.all_insts() if l.op == "load" and pat.last_field(l.d["ap"]) and pat.last_field(l.d["ap"]).startswith("defer_queue."))
